@@ -42,5 +42,7 @@ for seed in range(int(sys.argv[1]), int(sys.argv[2]) + 1):
         keep = os.path.join(WD, "rejected_%d_%s_%s.json" % (seed, args[0], args[1] if args[0] == "record" else ""))
         open(keep, "w").write(rec or p.stdout[-3000:])
         print("seed %d %s %s -> %s REJECTED record %s (kept %s)" % (seed, args[0], args[1] if args[0] == "record" else "", module, idx, keep), flush=True)
+        # the log outlives the snapshot of a `vp run`: show the record itself
+        print("   RECORD " + (rec or "").strip()[:2500], flush=True)
     print("seed %d done" % seed, flush=True)
 sys.exit(1 if bad else 0)
